@@ -585,16 +585,25 @@ func (w *grWorld) step(st grStep) map[string]any {
 		sp.closeConn()
 		row["kind"] = st.Kind
 	case "Ann":
+		if !w.isUp[st.P] {
+			return nil
+		}
 		sp := w.peers[st.P]
 		_ = sp.send(w.annMsg(st.P, []string{st.X}, st.C))
 		row["x"] = st.X
 		row["c"] = st.C
 		row["f"] = grFamOf[st.X]
 	case "Wd":
+		if !w.isUp[st.P] {
+			return nil
+		}
 		_ = w.peers[st.P].send(w.wdMsg(st.X))
 		row["x"] = st.X
 		row["f"] = grFamOf[st.X]
 	case "Eor":
+		if !w.isUp[st.P] {
+			return nil
+		}
 		_ = w.peers[st.P].send(bgp.NewEndOfRib(grFam[st.F]))
 		row["f"] = st.F
 	case "Loss":
